@@ -458,12 +458,6 @@ impl IncrementalEngine {
         let mut iteration_count = 0;
 
         while let Some(activation) = self.agenda.get_next_activation() {
-            iteration_count += 1;
-            if iteration_count > max_iterations {
-                eprintln!("WARNING: Maximum iterations ({}) reached in fire_all(). Possible infinite loop!", max_iterations);
-                break;
-            }
-
             // Find rule
             if let Some((_idx, rule)) = self
                 .rules
@@ -498,6 +492,15 @@ impl IncrementalEngine {
                             }
                         }
                     }
+                }
+
+                // Only activations that are actually executed count against the iteration bound:
+                // skipped (retracted / stale) activations just shrink the agenda, so they cannot
+                // loop forever, and they must not starve valid activations behind them
+                iteration_count += 1;
+                if iteration_count > max_iterations {
+                    eprintln!("WARNING: Maximum iterations ({}) reached in fire_all(). Possible infinite loop!", max_iterations);
+                    break;
                 }
 
                 // Execute action on a copy of all facts
